@@ -83,6 +83,9 @@ func main() {
 			}
 			vcs = append(vcs, vc)
 		}
+		if len(eng.immutable) > 0 {
+			vcs = append(vcs, eng.immutabilityObligations())
+		}
 		rs := solveAll(vcs, solveOpts{workDir: work, quickS: 4, fullS: 10, parallel: (runtime.NumCPU() + 1) / 2})
 		bad := 0
 		for _, r := range rs {
